@@ -802,3 +802,48 @@ Proof.
   destruct (Nat.eqb (S (length seen)) n); cbn [filter is_emit]; [|apply IH].
   rewrite spec_feed_complete_silent. cbn. auto.
 Qed.
+
+(** ... and EXACTLY when every frame of the packet occurs in the schedule (pigeonhole over the
+    set of distinct frame indices seen so far). *)
+Lemma spec_feed_emits_iff_all_arrive {B : Type} (so : N) (n : nat) (data : list B) sched :
+  forall seen,
+    NoDup seen -> (forall j, In j seen -> (j < n)%nat) -> (length seen < n)%nat ->
+    (forall j, In j sched -> (j < n)%nat) ->
+    (existsb is_emit (spec_feed so n data seen false sched) = true
+     <-> forall k, (k < n)%nat -> In k seen \/ In k sched).
+Proof.
+  induction sched as [|j r IH]; intros seen Hnd Hlt Hlen Hs; cbn [spec_feed existsb].
+  - split; [discriminate|]. intros Hc. exfalso.
+    assert (Hi : incl (seq 0 n) seen).
+    { intros k Hk. apply in_seq in Hk. destruct (Hc k) as [H|[]]; [lia|exact H]. }
+    pose proof (NoDup_incl_length (seq_NoDup n 0) Hi) as Hl. rewrite seq_length in Hl. lia.
+  - assert (Hj : (j < n)%nat) by (apply Hs; left; reflexivity).
+    assert (Hr : forall k, In k r -> (k < n)%nat) by (intros k Hk; apply Hs; right; exact Hk).
+    destruct (existsb (Nat.eqb j) seen) eqn:Ed.
+    + cbn [existsb is_emit orb]. rewrite (IH seen Hnd Hlt Hlen Hr).
+      apply existsb_exists in Ed. destruct Ed as (x & Hx & Ex). apply Nat.eqb_eq in Ex. subst x.
+      split; intros H k Hk; destruct (H k Hk) as [H1|H1]; auto.
+      * right. right. exact H1.
+      * destruct H1 as [H1|H1]; [subst k; left; exact Hx|right; exact H1].
+    + assert (Hnj : ~ In j seen).
+      { intros Hin. assert (existsb (Nat.eqb j) seen = true); [|congruence].
+        apply existsb_exists. exists j. split; [exact Hin|apply Nat.eqb_refl]. }
+      destruct (Nat.eqb (S (length seen)) n) eqn:En.
+      * cbn [existsb is_emit orb]. split; [intros _|reflexivity]. apply Nat.eqb_eq in En.
+        assert (Hi : incl (seq 0 n) (j :: seen)).
+        { apply (NoDup_length_incl (l := j :: seen)).
+          - constructor; assumption.
+          - rewrite seq_length. cbn [length]. lia.
+          - intros x [Hx|Hx]; apply in_seq; [subst x; lia|specialize (Hlt x Hx); lia]. }
+        intros k Hk. assert (Hin : In k (seq 0 n)) by (apply in_seq; lia).
+        destruct (Hi k Hin) as [H1|H1]; [right; left; exact H1|left; exact H1].
+      * cbn [existsb is_emit orb]. apply Nat.eqb_neq in En.
+        rewrite (IH (j :: seen)); [| constructor; assumption
+                                   | intros x [Hx|Hx]; [subst x; exact Hj|apply Hlt; exact Hx]
+                                   | cbn [length]; lia | exact Hr].
+        split; intros H k Hk; destruct (H k Hk) as [H1|H1].
+        -- destruct H1 as [H1|H1]; [right; left; exact H1|left; exact H1].
+        -- right. right. exact H1.
+        -- left. right. exact H1.
+        -- destruct H1 as [H1|H1]; [left; left; exact H1|right; exact H1].
+Qed.
